@@ -349,7 +349,7 @@ def shards(tier, seed):
                             stride=3 if tier == 'quick' else 1))
     for k in range(4 if tier == 'quick' else 16):
         out.append(dict(kind='hyp', seed=seed * 1000 + k,
-                        n=60 if tier == 'quick' else 1500))
+                        n=60 if tier == 'quick' else 4000))
     return out
 
 
